@@ -545,10 +545,19 @@ func (h kvHandler) HandleKvRawCompareAndSwap(req *kvrpcpb.RawCASRequest) *kvrpcp
 		}
 	}
 
+	// nil means "the previous value must not exist"; an empty previous value
+	// (which gRPC transfers as nil) means "exists with an empty value".
+	var expectedValue []byte
+	if !req.GetPreviousNotExist() {
+		expectedValue = req.GetPreviousValue()
+		if expectedValue == nil {
+			expectedValue = []byte{}
+		}
+	}
 	oldValue, success, err := rawKV.RawCompareAndSwap(
 		req.Cf,
 		req.GetKey(),
-		req.GetPreviousValue(),
+		expectedValue,
 		req.GetValue(),
 	)
 	if err != nil {
